@@ -158,32 +158,50 @@ class Enumerator:
         v = self._pops(vals, fr, self.result)
         return v is not None and len(v) == fr[3]
 
-    def enumerate(self, n, first=None):
-        """yield every valid body (list of Sym) with exactly 1..n symbols; 'first' restricts the first symbol (sharding)"""
-        init = ((), (('func', self.result, self.result, 0, False),))
-        out = []
+    def enumerate(self, n, first=None, prefix=(), suffix=()):
+        """yield every valid body with 1..n enumerated symbols; 'first' restricts the first symbol (sharding).
+        prefix / suffix: fixed symbol lists placed before / after the enumerated part (a CONTEXT: e.g. dead code inside a block
+        that is followed by live code); the yielded body is prefix + enumerated + suffix and is valid as a whole."""
+        vals, ctrls = (), (('func', self.result, self.result, 0, False),)
+        for s in prefix:
+            r = self.step(vals, ctrls, s)
+            if r is None:
+                raise ValueError('context prefix is not valid at %s' % s.name)
+            vals, ctrls = r
+        nclose = sum(1 for s in suffix if s.kind == 'end')
         syms = self.symbols
+        prefix, suffix = list(prefix), list(suffix)
+
+        def complete(vals, ctrls):
+            for s in suffix:
+                if not ctrls:
+                    return False
+                r = self.step(vals, ctrls, s)
+                if r is None:
+                    return False
+                vals, ctrls = r
+            return bool(ctrls) and self.closable(vals, ctrls)
 
         def rec(vals, ctrls, seq, left):
-            if seq and self.closable(vals, ctrls):
-                yield list(seq)
+            if seq and complete(vals, ctrls):
+                yield prefix + list(seq) + suffix
             if left == 0:
                 return
-            # every open block needs an 'end'
-            if len(ctrls) - 1 > left:
+            # every open block needs an 'end' (the suffix supplies nclose of them)
+            if len(ctrls) - 1 - nclose > left:
                 return
             for s in syms:
                 if not seq and first is not None and s is not first:
                     continue
                 r = self.step(vals, ctrls, s)
-                if r is None:
+                if r is None or not r[1]:
                     continue
-                if len(r[1]) - 1 > left - 1:
+                if len(r[1]) - 1 - nclose > left - 1:
                     continue
                 seq.append(s)
                 yield from rec(r[0], r[1], seq, left - 1)
                 seq.pop()
-        yield from rec(init[0], init[1], [], n)
+        yield from rec(vals, ctrls, [], n)
 
 
 def encode_body(seq):
@@ -261,6 +279,54 @@ def sigma_ctl():
     S.append(Sym('br_table[1,0]0', 'br_table', arg=((1, 0), 0), enc=br_table([1, 0], 0)))
     S.append(Sym('unreachable', 'unreachable', enc=UNREACHABLE))
     return S, 'ii', '', 'i'
+
+
+def sigma_mid():
+    """21 symbols used INSIDE fixed contexts (see contexts()): signature (i32 i32)->i32, no extra locals, import 0 = mark"""
+    S = []
+    S.append(Sym('i32.const', 'simple', (), ('i',), 'i', 'const'))
+    S.append(Sym('drop', 'drop', enc=DROP))
+    S.append(Sym('local.get 0', 'lget', arg=0, enc=local_get(0)))
+    S.append(Sym('local.get 1', 'lget', arg=1, enc=local_get(1)))
+    S.append(Sym('i32.add', 'simple', ('i', 'i'), ('i',), enc=op(0x6a)))
+    for kind, fn in (('block', block), ('if', if_)):
+        S.append(Sym(kind, kind, arg='', enc=fn(None)))
+        S.append(Sym(kind + '(i32)', kind, arg='i', enc=fn('i')))
+    S.append(Sym('loop', 'loop', arg='', enc=loop(None)))
+    S.append(Sym('else', 'else', enc=ELSE))
+    S.append(Sym('end', 'end', enc=END))
+    for d in range(2):
+        S.append(Sym('br %d' % d, 'br', arg=d, enc=br(d)))
+    for d in range(2):
+        S.append(Sym('br_if %d' % d, 'br_if', arg=d, enc=br_if(d)))
+    S.append(Sym('br_table[0]1', 'br_table', arg=((0,), 1), enc=br_table([0], 1)))
+    S.append(Sym('return', 'return', enc=RETURN))
+    S.append(Sym('unreachable', 'unreachable', enc=UNREACHABLE))
+    S.append(Sym('mark', 'simple', ('i',), ('i',), enc=call(0)))
+    S.append(Sym('dec0', 'simple', (), ('i',), enc=local_get(0) + i32_const(1) + op(0x6b) + local_tee(0)))
+    return S, 'ii', '', 'i'
+
+
+def contexts():
+    """named (prefix, suffix) contexts for sigma_mid: the enumerated part sits in dead code that is followed by live code, in an
+    if-arm, above extra operands inside / outside a value-carrying block, and inside a loop"""
+    c = lambda: Sym('i32.const', 'simple', (), ('i',), 'i', 'const')
+    blk, blki = Sym('block', 'block', arg='', enc=block(None)), Sym('block(i32)', 'block', arg='i', enc=block('i'))
+    ifi = Sym('if(i32)', 'if', arg='i', enc=if_('i'))
+    lp = Sym('loop', 'loop', arg='', enc=loop(None))
+    els, end = Sym('else', 'else', enc=ELSE), Sym('end', 'end', enc=END)
+    br0 = Sym('br 0', 'br', arg=0, enc=br(0))
+    lg0 = Sym('local.get 0', 'lget', arg=0, enc=local_get(0))
+    mark = Sym('mark', 'simple', ('i',), ('i',), enc=call(0))
+    add = Sym('i32.add', 'simple', ('i', 'i'), ('i',), enc=op(0x6a))
+    return [
+        ('dead-in-block-then-live', [blk, br0], [end, c(), mark]),
+        ('dead-in-then-arm', [lg0, ifi, c(), br0], [els, c(), mark, end]),
+        ('dead-in-else-arm', [lg0, ifi, c(), mark, els, c(), br0], [end]),
+        ('two-operands-inside-block', [blki, c(), c()], [end]),
+        ('operand-below-block', [c(), blki, c()], [end, add]),
+        ('inside-loop-in-block', [blki, c(), lp], [end, end]),
+    ]
 
 
 def sigma_typed(T, params='iI', local_groups=((1, 'f'), (2, 'F'), (1, 'i'))):
